@@ -94,9 +94,15 @@ def r1(ctx, osc, wk):
   puts = [c for c in walk_no_nested(osc.node) if isinstance(c, ast.Call) and call_attr(c) == 'put' and '_notification_queue' in U(c.func.value)]
   ok = len(puts) == 1 and puts[0].args and isinstance(puts[0].args[0], ast.Tuple) and len(puts[0].args[0].elts) == 2
   got = None
+  def kind_of(x):
+    if isinstance(x, ast.BinOp) and isinstance(x.op, ast.Sub):
+      return 'DIFF:%s-%s' % (kind_of(x.left), kind_of(x.right))
+    if isinstance(x, ast.Call) and call_attr(x) == 'difference' and len(x.args) == 1:
+      return 'DIFF:%s-%s' % (kind_of(x.func.value), kind_of(x.args[0]))
+    return kind.get(U(x), '?')
   if ok:
     a, b = puts[0].args[0].elts
-    got = (kind.get(U(a)), kind.get(U(b)))
+    got = (kind_of(a), kind_of(b))
     ok = got == ('DIFF:NEW-OLD', 'DIFF:OLD-NEW')
   ctx.ob('C19.R1', osc, 'queues exactly one (new - old, old - new) item', ok, 'queued item is %s' % (got,), why)
   # worker unpack order: position 0 -> joins, position 1 -> leaves
